@@ -161,7 +161,10 @@ func (p Payload) Bytes() []byte {
 		b[i] = seed[i%len(seed)] ^ byte(i*7)
 	}
 	if n > 0 {
-		b[0] = 0x80 | (b[0] & 0x3f) // never STUN-shaped
+		// never STUN-shaped; the first byte is a function of the payload ID so that even one-byte payloads of
+		// different IDs (IDs within one history are small) have different contents: the harness recognises a
+		// delivered payload by its content
+		b[0] = 0x80 | byte(p.ID&0x3f)
 	}
 	if p.Stun {
 		// STUN-shaped (stun.IsMessage accepts) but undecodable: the length field lies
